@@ -141,7 +141,7 @@ def make_tests(n, maxres):
     return harness
 
 
-def make_bylabels(n, keys, sel=None, by3=None):
+def make_bylabels(n, keys, sel=None, by3=None, concrete=None):
     import itertools
     selections = [s for r in (1, 2) for s in itertools.permutations(['k0', 'k1'], r)]
     if by3 is not None:           # three-level selections: a fixed ordered selection, every result but the last carries every label
@@ -157,7 +157,8 @@ def make_bylabels(n, keys, sel=None, by3=None):
             labels = {}
             for k in keys:
                 if (by3 is not None and i < n - 1) or ex.flag(f'r{i}has{k}'):
-                    labels[k] = ex.key(f'r{i}{k}')
+                    # symbolic value (equality only), or one of a few concrete values of DIFFERENT types (None, text, number)
+                    labels[k] = ex.key(f'r{i}{k}') if concrete is None else concrete[ex.choice(len(concrete), f'r{i}{k}value')]
             nm = ['a', 'a', 'b', 'b'][i]        # repeated test names are part of the bound
             v = ex.bool(f'verdict{i}')
             r = _R(_T(name=nm, labels=labels), v)
@@ -217,7 +218,7 @@ def make_bylabels(n, keys, sel=None, by3=None):
 
 def _job(kind, timeout_ms, seed=0, **p):
     h = make_tasks(p['n']) if kind == 'tasks' else make_tests(p['n'], p['maxres']) if kind == 'tests' \
-        else make_bylabels(p['n'], p['keys'], p.get('sel'), p.get('by3'))
+        else make_bylabels(p['n'], p['keys'], p.get('sel'), p.get('by3'), p.get('concrete'))
     return run_sym('x', h, timeout_ms=timeout_ms, seed=seed, max_paths=2000000)
 
 
@@ -238,7 +239,9 @@ def _known_job(seed=0):
 
 
 # user labels that carry names other parts of valjean reserve for themselves ('index' / 'results' of the Browser), selected on
-RESERVED_NAME_JOBS = [('bylabels', dict(n=2, keys=('k0', 'index'), by3=('index',))),
+RESERVED_NAME_JOBS = [('bylabels', dict(n=3, keys=('k0',), by3=('k0',), concrete=(None, 'x', 1))),
+                      ('bylabels', dict(n=2, keys=('k0', 'k1'), by3=('k1', 'k0'), concrete=(None, 'x', 1))),
+                      ('bylabels', dict(n=2, keys=('k0', 'index'), by3=('index',))),
                       ('bylabels', dict(n=2, keys=('k0', 'results'), by3=('results', 'k0'))),
                       ('bylabels', dict(n=3, keys=('index', 'results'), by3=('index', 'results')))]
 
@@ -266,7 +269,7 @@ def jobs(tier):
                 ('bylabels', dict(n=3, keys=('k0', 'k1', 'k2'), by3=('k0', 'k1', 'k2'))),
                 ('bylabels', dict(n=3, keys=('k0', 'k1', 'k2'), by3=('k1', 'k2', 'k0')))] + RESERVED_NAME_JOBS
     for kind, p in plan:
-        name = kind + '-' + '-'.join(f'{k}{"+".join(v) if isinstance(v, tuple) else v}' for k, v in p.items())
+        name = kind + '-' + '-'.join(f'{k}{"+".join(map(str, v)) if isinstance(v, tuple) else v}' for k, v in p.items())
         if kind == 'bylabels' and p['n'] >= 2 and 'by3' not in p:
             for sel in range(4):            # one job per ordered label selection (parallelism)
                 out.append((f'{name}-sel{sel}', _job, dict(kind=kind, timeout_ms=t, sel=sel, **p)))
@@ -281,6 +284,6 @@ def replay(rp):
             p = dict(j[2])
             kind = p.pop('kind')
             h = make_tasks(p['n']) if kind == 'tasks' else make_tests(p['n'], p['maxres']) if kind == 'tests' \
-                else make_bylabels(p['n'], p['keys'], p.get('sel'), p.get('by3'))
+                else make_bylabels(p['n'], p['keys'], p.get('sel'), p.get('by3'), p.get('concrete'))
             return replay_sym(h, rp['inputs'])
     raise KeyError(rp['job'])
